@@ -223,6 +223,14 @@ def run(tier):
         a = "DUP3 %s SWAP2 SWAP1 %s SWAP1 %s" % (ld, st, ld)
         for o in (osets[:1] + osets[2:3]):
             tasks.append({"kind": "compare", "a": a, "b": a + " SWAP1", "opts": o, "mut": "identical-loads-exchanged"})
+    # code moved across a split instruction next to an empty sub-block: the same number of sub-block specifications, differently placed
+    for sp, pre in (("LOG0", "DUP2 DUP2"), ("LOG0", ""), ("LOG1", "DUP3 DUP3 DUP3"), ("CALLDATACOPY", "DUP3 DUP3 DUP3"), ("CALLDATACOPY", "")):
+        for code in ("PUSH1 0x20 ADD", "SWAP1", "DUP1 ISZERO SWAP1 POP", "PUSH1 0x1 SWAP1 SUB"):
+            a = ("%s %s %s %s" % (pre, sp, sp, code)).strip()
+            b = ("%s %s %s %s" % (pre, sp, code, sp)).strip()
+            for o in osets[:1]:
+                tasks.append({"kind": "compare", "a": a, "b": b, "opts": o, "mut": "moved-across-split"})
+                tasks.append({"kind": "compare", "a": b, "b": a, "opts": o, "mut": "moved-across-split"})
     # -partition: the store at which a long block is cut belongs to no sub-block
     pre, post = " ".join(["PUSH1 0x1 ADD"] * 12), " ".join(["PUSH1 0x1 ADD"] * 6)
     for st2 in ("MSTORE", "MSTORE8"):
